@@ -251,14 +251,12 @@ def read_field(filename, fmt=None):
             af = _bintable_to_asdf(f['ASDF'])
             tree = af.tree['field']
             if f[0].data is not None:
-                tree['values'] = f[0].data
-
-            if 'grid' in tree:
+                # The values were stored as an image with the shape of the (separated) grid.
                 grid = Grid.from_dict(tree['grid'])
-                new_shape = np.concatenate((tree['values'].shape[:-grid.ndim], [grid.size])).astype('int')
-                tree['values'] = tree['values'].reshape(new_shape)
+                new_shape = np.concatenate((f[0].data.shape[:-grid.ndim], [grid.size])).astype('int')
+                tree['values'] = f[0].data.reshape(new_shape)
 
-            return Field.from_dict(tree).reshape(new_shape)
+            return Field.from_dict(tree)
     elif fmt == 'pickle':
         with open(filename, 'rb') as f:
             return pickle.load(f)
